@@ -9,12 +9,12 @@ package main
 // R2  a constant index into the coordinate slice needs a length guard.
 
 import (
-	"strings"
 	"fmt"
 	"go/ast"
 	"go/token"
 	"go/types"
 	"sort"
+	"strings"
 
 	"golang.org/x/tools/go/ssa"
 )
